@@ -318,6 +318,11 @@ def _one(R, darsia, rng, cur, shape, cnt, ov, case_no):
                     cur_keep = dict(cur)
                     cur["what"] = "after set_image on one patch"
                     ASSEMBLE_EXPECT["exp"] = None
+                    # a refused request in between (content of another shape): the patch keeps what it held
+                    try:
+                        P.set_image(np.zeros((tgt.img.shape[0] + 2,) + tgt.img.shape[1:], dtype=tgt.img.dtype), pi_, pj_)
+                    except Exception:
+                        R.count("refused_set_image_in_between")
                     okp, _ = R.guarded("set_image", lambda: P.set_image(newc, pi_, pj_))
                     if okp and rel is not None:
                         exp_asm = base.img.copy()
